@@ -438,6 +438,10 @@ def h_stage(R, r, tier):
     a = R.do("state")
     if a is None or R.state is None:
         return
+    if len(R.state["faces"]) < 4 or U.topo_oracle(R.state["faces"], "mother"):
+        # the real refine_mesh collapsed the coarse solid to a two-triangle pillow: not a cell (cell.cpp asserts >= 4 faces)
+        R.count("stage_skipped_degenerate_mother")
+        return
     a = R.do("edges")
     nodes = [q for (u, q) in R.state["nodes"]]
     faces = R.state["faces"]
